@@ -12,3 +12,7 @@ import Solvor.Graph.Theorems
 #print axioms Solvor.Graph.condense_spec
 #print axioms Solvor.Graph.chkCondense_correct
 #print axioms Solvor.Graph.condense_mirror_spec
+#print axioms Solvor.Graph.chkSccOpen_correct
+#print axioms Solvor.Graph.chkTopoOpen_correct
+#print axioms Solvor.Graph.chkCondOpen_correct
+#print axioms Solvor.Graph.open_clauses_common
